@@ -258,6 +258,11 @@ def run_property(prop, tier, harnesses, level, explanation, assumptions, outside
             if k["key"] in (h.name + ":" + key).replace(" ", "_"):
                 kmatch = k
         status, txt = ("skipped", "")
+        if h.replay and replays >= 6 and n_viol >= 3:
+            # enough reproduced counterexamples: the remaining ones are recorded, not replayed
+            json.dump({"property": prop, "harness": h.name, "pkg": h.pkg, "violation": v, "model": v.get("model", {}),
+                       "native_replay": "not replayed (3 others already reproduced)"}, open(cexp, "w"), indent=1)
+            continue
         if h.replay:
             status, txt = native_replay(prop, h, v.get("model", {}), idx)
             replays += 1
